@@ -158,31 +158,22 @@ func c11Wiring(c *Check) {
 		if _, isSlice := guard.Type().Underlying().(*types.Slice); !isSlice {
 			return true
 		}
-		// closures in the then-branch: what do they range over / take len of?
+		// which constructor lists does the then-branch use (in a closure, or handed to a helper)? Every local slice of the
+		// guard's type that is mentioned there
 		var used []types.Object
 		ast.Inspect(is.Body, func(x ast.Node) bool {
-			fl, ok := x.(*ast.FuncLit)
+			id, ok := x.(*ast.Ident)
 			if !ok {
 				return true
 			}
-			ast.Inspect(fl.Body, func(y ast.Node) bool {
-				switch s := y.(type) {
-				case *ast.RangeStmt:
-					if o := objOf(info, s.X); o != nil {
-						used = append(used, o)
-					}
-				case *ast.CallExpr:
-					if id, ok := s.Fun.(*ast.Ident); ok && (id.Name == "len" || id.Name == "cap") && len(s.Args) == 1 {
-						if o := objOf(info, s.Args[0]); o != nil {
-							if _, isSlice := o.Type().Underlying().(*types.Slice); isSlice && o.Parent() != nil && o.Pos() < fl.Pos() {
-								used = append(used, o)
-							}
-						}
-					}
-				}
+			o, ok := info.Uses[id].(*types.Var)
+			if !ok || o.IsField() || o.Parent() == nil || o.Pos() > is.Pos() || !posIn(r.FI.Decl.Body, o.Pos()) {
 				return true
-			})
-			return false
+			}
+			if _, isSlice := o.Type().Underlying().(*types.Slice); isSlice && types.Identical(o.Type(), guard.Type()) {
+				used = append(used, o)
+			}
+			return true
 		})
 		if len(used) == 0 {
 			return true
@@ -424,6 +415,18 @@ func c11Pairing(c *Check) {
 								return true
 							}
 						}
+						// a method of the group that releases that stage (`g.releaseIP(addr)`)
+						if fn := callee(info, call); fn != nil && fn.Pkg() == r.FI.Obj.Pkg() && fn != r.FI.Obj {
+							if d := c.P.DeclOf(fn); d != nil && d.Decl.Body != nil {
+								for _, c2 := range callsIn(d.Decl.Body) {
+									if methodName(c2) == "Release" {
+										if fv := fieldOf(d.Info(), callRecv(c2)); fv != nil && fv.Name() == field {
+											return true
+										}
+									}
+								}
+							}
+						}
 					}
 					return false
 				}
@@ -469,99 +472,162 @@ func c11Pairing(c *Check) {
 	}
 }
 
-// multiLimitRollback recognises `for i := 0; i < len(W); i++ { if fail(W[i]) { <release W[0..i-1]>; return } }`.
+// multiLimitRollback: the acquisition loop over the wrapped limiters (any loop form with an index) releases, on a
+// failed acquire, exactly the prefix below the failing index – inline, through a snapshot `held := W[:i]`, or in a
+// helper of the package that is handed the index.
 func multiLimitRollback(r *RuleCtx) (bool, string) {
 	info := r.Info
-	var outer *ast.ForStmt
-	ast.Inspect(r.FI.Decl.Body, func(n ast.Node) bool {
-		if fs, ok := n.(*ast.ForStmt); ok && outer == nil {
-			outer = fs
+	isWrapped := func(inf *types.Info) func(ast.Expr) bool {
+		return func(e ast.Expr) bool { fv := fieldOf(inf, e); return fv != nil && fv.Name() == "Wrapped" }
+	}
+	var acq *ElemLoop
+	for _, l := range elemLoops(info, r.FI.Decl.Body, isWrapped(info)) {
+		l := l
+		takes := false
+		ast.Inspect(l.Body, func(n ast.Node) bool {
+			if call, ok := n.(*ast.CallExpr); ok && (methodName(call) == "Take" || methodName(call) == "TakeContext") && callRecv(call) != nil && l.IsElem(callRecv(call)) {
+				takes = true
+			}
+			return true
+		})
+		if takes && acq == nil {
+			acq = l
 		}
-		return true
-	})
-	if outer == nil {
-		// range form: for i, l := range W
+	}
+	if acq == nil {
 		return false, "undecided: acquisition loop not recognised"
 	}
-	var idx types.Object
-	if as, ok := outer.Init.(*ast.AssignStmt); ok && len(as.Lhs) == 1 {
-		idx = objOf(info, as.Lhs[0])
-	}
+	idx := acq.Idx
 	if idx == nil {
-		return false, "undecided: loop index not found"
+		return false, "undecided: the acquisition loop has no index (the acquired prefix cannot be named)"
 	}
-	// release sites inside the outer loop
 	type rel struct {
 		ok  bool
 		why string
 	}
 	var rels []rel
-	ast.Inspect(outer.Body, func(n ast.Node) bool {
-		switch s := n.(type) {
-		case *ast.RangeStmt:
-			hasRel := false
-			ast.Inspect(s.Body, func(x ast.Node) bool {
-				if call, ok := x.(*ast.CallExpr); ok && methodName(call) == "Release" && s.Value != nil && recvObj(info, call) == objOf(info, s.Value) {
-					hasRel = true
-				}
-				return true
-			})
-			if !hasRel {
-				return true
+	// prefixOf: e denotes list[:bound] / list[0:bound]
+	prefixOf := func(inf *types.Info, body ast.Node, e ast.Expr, isList func(ast.Expr) bool, bound types.Object) (bool, bool) {
+		e = ast.Unparen(e)
+		if o, ok := objOf(inf, e).(*types.Var); ok && !o.IsField() {
+			if def, n := localDef(inf, body, o); n == 1 && def != nil {
+				e = ast.Unparen(def)
 			}
-			se, ok := ast.Unparen(s.X).(*ast.SliceExpr)
-			if !ok {
-				rels = append(rels, rel{false, "the roll-back ranges over the whole list, not the acquired prefix"})
-				return false
-			}
-			lowOK := se.Low == nil
-			if se.Low != nil {
-				if tv, ok := info.Types[se.Low]; ok && tv.Value != nil && tv.Value.String() == "0" {
-					lowOK = true
-				}
-			}
-			highOK := se.High != nil && objOf(info, se.High) == idx
-			if lowOK && highOK {
-				rels = append(rels, rel{true, ""})
-			} else {
-				rels = append(rels, rel{false, "the roll-back releases " + exprStr(s.X) + " instead of the acquired prefix [:" + idx.Name() + "] (it releases a limiter that was not acquired, or skips one that was)"})
-			}
-			return false
-		case *ast.ForStmt:
-			hasRel := false
-			ast.Inspect(s.Body, func(x ast.Node) bool {
-				if call, ok := x.(*ast.CallExpr); ok && methodName(call) == "Release" {
-					hasRel = true
-				}
-				return true
-			})
-			if !hasRel {
-				return true
-			}
-			// accepted: j := i-1; j >= 0; j--   or   j := 0; j < i; j++
-			okShape := false
-			if as, ok := s.Init.(*ast.AssignStmt); ok && len(as.Lhs) == 1 && len(as.Rhs) == 1 {
-				j := objOf(info, as.Lhs[0])
-				if be, ok := ast.Unparen(as.Rhs[0]).(*ast.BinaryExpr); ok && be.Op == token.SUB && objOf(info, be.X) == idx && exprStr(be.Y) == "1" {
-					if cb, ok := ast.Unparen(s.Cond).(*ast.BinaryExpr); ok && cb.Op == token.GEQ && objOf(info, cb.X) == j && exprStr(cb.Y) == "0" {
-						okShape = true
-					}
-				}
-				if exprStr(as.Rhs[0]) == "0" {
-					if cb, ok := ast.Unparen(s.Cond).(*ast.BinaryExpr); ok && cb.Op == token.LSS && objOf(info, cb.X) == j && objOf(info, cb.Y) == idx {
-						okShape = true
-					}
-				}
-			}
-			if okShape {
-				rels = append(rels, rel{true, ""})
-			} else {
-				rels = append(rels, rel{false, "the roll-back loop does not cover exactly the indices below the failing one (it starts at or includes index " + idx.Name() + ", releasing a limiter that was not acquired)"})
-			}
-			return false
 		}
-		return true
+		se, ok := e.(*ast.SliceExpr)
+		if !ok {
+			return false, false
+		}
+		lowOK := se.Low == nil
+		if se.Low != nil {
+			if tv, ok := inf.Types[se.Low]; ok && tv.Value != nil && tv.Value.String() == "0" {
+				lowOK = true
+			}
+		}
+		return true, lowOK && isList(se.X) && se.High != nil && objOf(inf, se.High) == bound && bound != nil
+	}
+	releaseLoops := func(inf *types.Info, body ast.Node) []*ElemLoop {
+		var out []*ElemLoop
+		for _, l := range elemLoops(inf, body, func(ast.Expr) bool { return true }) {
+			l := l
+			hasRel := false
+			ast.Inspect(l.Body, func(x ast.Node) bool {
+				if call, ok := x.(*ast.CallExpr); ok && methodName(call) == "Release" && callRecv(call) != nil && l.IsElem(callRecv(call)) {
+					hasRel = true
+				}
+				return true
+			})
+			if hasRel {
+				out = append(out, l)
+			}
+		}
+		return out
+	}
+	seen := map[ast.Stmt]bool{}
+	for _, l := range releaseLoops(info, acq.Body) {
+		seen[l.Stmt] = true
+		sliced, okP := prefixOf(info, r.FI.Decl.Body, l.List, isWrapped(info), idx)
+		switch {
+		case !sliced:
+			rels = append(rels, rel{false, "the roll-back ranges over the whole list, not the acquired prefix"})
+		case !okP || !l.Whole:
+			rels = append(rels, rel{false, "the roll-back releases " + exprStr(l.List) + " instead of the acquired prefix [:" + idx.Name() + "] (it releases a limiter that was not acquired, or skips one that was)"})
+		default:
+			rels = append(rels, rel{true, ""})
+		}
+	}
+	// hand-written index loops over the prefix
+	ast.Inspect(acq.Body, func(n ast.Node) bool {
+		s, ok := n.(*ast.ForStmt)
+		if !ok || seen[s] {
+			return true
+		}
+		hasRel := false
+		ast.Inspect(s.Body, func(x ast.Node) bool {
+			if call, ok := x.(*ast.CallExpr); ok && methodName(call) == "Release" {
+				hasRel = true
+			}
+			return true
+		})
+		if !hasRel {
+			return true
+		}
+		// accepted: j := i-1; j >= 0; j--   or   j := 0; j < i; j++
+		okShape := false
+		if as, ok := s.Init.(*ast.AssignStmt); ok && len(as.Lhs) == 1 && len(as.Rhs) == 1 {
+			j := objOf(info, as.Lhs[0])
+			if be, ok := ast.Unparen(as.Rhs[0]).(*ast.BinaryExpr); ok && be.Op == token.SUB && objOf(info, be.X) == idx && exprStr(be.Y) == "1" {
+				if cb, ok := ast.Unparen(s.Cond).(*ast.BinaryExpr); ok && cb.Op == token.GEQ && objOf(info, cb.X) == j && exprStr(cb.Y) == "0" {
+					okShape = true
+				}
+			}
+			if exprStr(as.Rhs[0]) == "0" {
+				if cb, ok := ast.Unparen(s.Cond).(*ast.BinaryExpr); ok && cb.Op == token.LSS && objOf(info, cb.X) == j && objOf(info, cb.Y) == idx {
+					okShape = true
+				}
+			}
+		}
+		if okShape {
+			rels = append(rels, rel{true, ""})
+		} else {
+			rels = append(rels, rel{false, "the roll-back loop does not cover exactly the indices below the failing one (it starts at or includes index " + idx.Name() + ", releasing a limiter that was not acquired)"})
+		}
+		return false
 	})
+	// a helper that is handed the failing index
+	for _, call := range callsIn(acq.Body) {
+		fn := callee(info, call)
+		if fn == nil || fn.Pkg() != r.FI.Obj.Pkg() || fn == r.FI.Obj {
+			continue
+		}
+		d := r.C.P.DeclOf(fn)
+		if d == nil || d.Decl.Body == nil {
+			continue
+		}
+		di := d.Info()
+		rl := releaseLoops(di, d.Decl.Body)
+		if len(rl) == 0 {
+			continue
+		}
+		var bound types.Object
+		pi := 0
+		for _, f := range d.Decl.Type.Params.List {
+			for _, nm := range f.Names {
+				if pi < len(call.Args) && objOf(info, call.Args[pi]) == idx {
+					bound = di.Defs[nm]
+				}
+				pi++
+			}
+		}
+		for _, l := range rl {
+			sliced, okP := prefixOf(di, d.Decl.Body, l.List, isWrapped(di), bound)
+			if sliced && okP && l.Whole && bound != nil {
+				rels = append(rels, rel{true, ""})
+			} else {
+				rels = append(rels, rel{false, "the roll-back helper " + fn.Name() + " does not release exactly the prefix below the failing index (" + exprStr(l.List) + ")"})
+			}
+		}
+	}
 	if len(rels) == 0 {
 		return false, "on failure of one limiter the ones already acquired are not released"
 	}
@@ -717,23 +783,51 @@ func c11StalenessIn(c *Check, rule string, rels []string) {
 		}
 		p.AllFuncs([]*packagesPkg{pk}, func(fi *FuncInfo) {
 			info := fi.Info()
-			isNow := func(e ast.Expr) bool {
+			var isNowIn func(f2 *FuncInfo, e ast.Expr, depth int) bool
+			isNowIn = func(f2 *FuncInfo, e ast.Expr, depth int) bool {
+				inf := f2.Info()
 				e = ast.Unparen(e)
-				if call, ok := e.(*ast.CallExpr); ok && isCall(info, call, "time.Now") {
+				if call, ok := e.(*ast.CallExpr); ok && isCall(inf, call, "time.Now") {
 					return true
 				}
-				if o := objOf(info, e); o != nil {
-					if _, isVar := o.(*types.Var); isVar && !o.(*types.Var).IsField() {
-						def, n := localDef(info, fi.Decl.Body, o)
-						if n == 1 && def != nil {
-							if call, ok := ast.Unparen(def).(*ast.CallExpr); ok && isCall(info, call, "time.Now") {
-								return true
+				o, isVar := objOf(inf, e).(*types.Var)
+				if !isVar || o.IsField() {
+					return false
+				}
+				if def, n := localDef(inf, f2.Decl.Body, o); n == 1 && def != nil {
+					if call, ok := ast.Unparen(def).(*ast.CallExpr); ok && isCall(inf, call, "time.Now") {
+						return true
+					}
+				}
+				// a parameter that every caller in the package binds to "now" (`reapStale(time.Now())`)
+				if depth < 2 && f2.Decl.Type.Params != nil && !f2.Obj.Exported() {
+					pi, idx := 0, -1
+					for _, f := range f2.Decl.Type.Params.List {
+						for _, nm := range f.Names {
+							if inf.Defs[nm] == types.Object(o) {
+								idx = pi
 							}
+							pi++
 						}
+					}
+					if idx >= 0 {
+						sites, all := 0, true
+						p.AllFuncs([]*packagesPkg{f2.Pkg}, func(caller *FuncInfo) {
+							for _, call := range callsIn(caller.Decl.Body) {
+								if callee(caller.Info(), call) == f2.Obj {
+									sites++
+									if idx >= len(call.Args) || !isNowIn(caller, call.Args[idx], depth+1) {
+										all = false
+									}
+								}
+							}
+						})
+						return sites > 0 && all
 					}
 				}
 				return false
 			}
+			isNow := func(e ast.Expr) bool { return isNowIn(fi, e, 0) }
 			isStamp := func(e ast.Expr) bool {
 				e = ast.Unparen(e)
 				if fieldOf(info, e) != nil {
